@@ -115,6 +115,11 @@ impl DeferredBeneficiaryReward {
         account
     }
 
+    #[cfg(feature = "verif")]
+    pub(crate) fn verif_amount(self) -> U256 {
+        self.0
+    }
+
     #[cfg(test)]
     pub(crate) fn for_test(amount: U256) -> Self {
         assert!(!amount.is_zero(), "a deferred reward must be non-zero");
